@@ -92,3 +92,54 @@ VP_ENTRY vp_main_params_remove()
   vp_assert(o.params_end() - o.params_begin() == 1, "removing an absent parameter changes nothing");
   vp_reach("end");
 }
+
+// ParameterizedObject histories: every sequence of PH actions over names "a","b","c" (set int / set float / remove /
+// typed reads / hasParam / reset query status) with symbolic values, compared step by step with a reference list
+// (first-insertion order, one entry per name, exact-type reads, query flag).
+#ifndef PH
+#define PH 3
+#endif
+#ifndef PNAMES
+#define PNAMES 3
+#endif
+struct PRef { int name[PNAMES + 1]; int type[PNAMES + 1]; uint32_t bits[PNAMES + 1]; bool query[PNAMES + 1]; int n; };
+static int pref_find(const PRef &r, int nm) { for (int i = 0; i < r.n; i++) if (r.name[i] == nm) return i; return -1; }
+static void pref_check(PObj &o, const PRef &r, const std::string *names)
+{
+  vp_assert(o.params_end() - o.params_begin() == r.n, "history: each name stored once (list length)");
+  int i = 0;
+  for (auto it = o.params_begin(); it != o.params_end() && i < r.n; ++it, ++i) {
+    vp_assert((*it)->name == names[r.name[i]], "history: first-insertion order, removal keeps the order of the rest");
+    vp_assert((*it)->query == r.query[i], "history: query flag set exactly by a successful exact-type read until reset");
+  }
+}
+VP_ENTRY vp_main_params_hist()
+{
+  vp_nothrow(true);
+  PObj o;
+  const std::string names[3] = {std::string("a"), std::string("b"), std::string("c")};
+  PRef r; r.n = 0;
+  for (int step = 0; step < PH; step++) {
+    unsigned act = vp_pick(7);
+    unsigned nm = act == 6 ? 0 : vp_pick(PNAMES);
+    int pos = pref_find(r, (int)nm);
+    switch (act) {
+    case 0: { int v = vp_nondet_int(); o.setParam(names[nm], v);
+              if (pos < 0) { pos = r.n++; r.name[pos] = nm; r.query[pos] = false; } r.type[pos] = 0; r.bits[pos] = (uint32_t)v; } break;
+    case 1: { float v = vp_nondet_f32(); uint32_t b; __builtin_memcpy(&b, &v, 4); o.setParam(names[nm], v);
+              if (pos < 0) { pos = r.n++; r.name[pos] = nm; r.query[pos] = false; } r.type[pos] = 1; r.bits[pos] = b; } break;
+    case 2: { o.removeParam(names[nm]);
+              if (pos >= 0) { for (int i = pos; i + 1 < r.n; i++) { r.name[i] = r.name[i + 1]; r.type[i] = r.type[i + 1]; r.bits[i] = r.bits[i + 1]; r.query[i] = r.query[i + 1]; } r.n--; } } break;
+    case 3: { int d = vp_nondet_int(); int got = o.getParam<int>(names[nm], d);
+              if (pos >= 0 && r.type[pos] == 0) { vp_assert((uint32_t)got == r.bits[pos], "history: exact-type read returns the last value written"); r.query[pos] = true; }
+              else vp_assert(got == d, "history: absent or other-typed parameter reads the caller's default"); } break;
+    case 4: { float d = 1.5f; float got = o.getParam<float>(names[nm], d); uint32_t gb; __builtin_memcpy(&gb, &got, 4);
+              if (pos >= 0 && r.type[pos] == 1) { vp_assert(gb == r.bits[pos], "history: exact-type read returns the last value written"); r.query[pos] = true; }
+              else vp_assert(gb == 0x3fc00000u, "history: absent or other-typed parameter reads the caller's default"); } break;
+    case 5: { vp_assert(o.hasParam(names[nm]) == (pos >= 0), "history: hasParam <=> set and not since removed"); } break;
+    case 6: { o.resetAllParamQueryStatus(); for (int i = 0; i < r.n; i++) r.query[i] = false; } break;
+    }
+    pref_check(o, r, names);
+  }
+  vp_reach("end");
+}
